@@ -85,6 +85,8 @@ def generate(seed, idx, tier):
                       part_kinds=PART_KINDS)
     nparts = len(shape['parts'])
     has_cat = any(c[1] == 'cat' for c in shape['cols'])
+    # some frames carry rows without a partition key (dropped on write)
+    shape['pnull'] = bool(nparts) and rng.random() < 0.3
     many = rng.random() < 0.12
     f0 = gen_frame_spec(rng, shape, 0, permute=False,
                         min_rows=24 if many else 1)
@@ -131,7 +133,7 @@ def generate(seed, idx, tier):
         def only(frame, val):
             fr = copy.deepcopy(frame)
             for name in fr['part']:
-                kind, choices, pseed = fr['part'][name]
+                kind, choices, pseed = fr['part'][name][:3]
                 fr['part'][name] = [kind, [val] if name == p0
                                     else choices[:1], pseed]
             return fr
@@ -298,6 +300,10 @@ def _execute(case, fs, ds, res, cnt, probes, bump, violation, parts, pkinds):
                                   stats=kw.get('stats', True))
                     canon = F.canon_frame(df)
                     uids, new_rows = D.by_uid(canon)
+                    # rows without a partition key are not written
+                    new_rows = {u: r for u, r in new_rows.items()
+                                if all(r[p] is not None for p in parts)}
+                    uids = [u for u in uids if u in new_rows]
                     keys = {pkey(new_rows[u], parts) for u in uids}
                     doomed = [u for u, r in rows.items()
                               if pkey(r, parts) in keys]
